@@ -42,7 +42,7 @@ LookupUniverse ==
 
 VARIABLES w, t, done
 vars == <<w, t, done>>
-TypeAlpha == <<103, 66, 84, 49, 46, 43, 45, 33, 44, 233>>
+TypeAlpha == <<103, 66, 84, 49, 46, 43, 45, 33, 44, 233, 8490>>     \* g B T 1 . + - ! , e-acute Kelvin
 Alpha == IF MODE = "combined" THEN CombAlpha ELSE IF MODE = "typestr" THEN TypeAlpha ELSE NameAlpha
 TypeSeq == IF MODE = "combined" THEN AllTypes ELSE IF MODE = "typestr" THEN <<CARGO>> ELSE TypesN
 Init == IF MODE = "lookup" THEN w \in LookupUniverse /\ t = 1 /\ done = TRUE
